@@ -698,9 +698,9 @@ def _typed_case(case, cwd):
                 continue  # dump() with the same flags already deviated for this configuration (same text): one root cause
             if cls and (f0, cls) not in reported and (f0, alias) not in reported:
                 record(channel, f0, cls, detail, [f0])
-        if shape not in ("flat", "class") and "" in pc_flags:
-            # (quick budget: not on the class-typed cases, whose parses cost ten times a plain one; the position of
-            # the flag relative to the config option is independent of the argument types)
+        if shape not in ("flat", "class") and "" in pc_flags and (not has_default or save_all):
+            # (quick budget: not on the class-typed cases, whose parses cost ten times a plain one, and with the default
+            # unset only; the position of the flag relative to the config option is independent of types and defaults)
             # --print_config placed BEFORE a config file option and the other arguments: it must still print the
             # configuration "after applying all other arguments".  The file is an empty mapping, so the expected
             # configuration is the one of the arguments alone.
